@@ -423,12 +423,24 @@ class SimSelector:
             raise ValueError(f"Invalid file object: {fileobj!r}")
         if fileobj.closed:
             raise ValueError("Invalid file descriptor: -1")
+        fd = fileobj.fileno()
+        # like selectors.BaseSelector: keyed by descriptor number - a key left behind by a socket that was closed without
+        # being unregistered blocks the number when the kernel hands it out again
+        if any(k.fd == fd for k in self.keys):
+            raise KeyError(f"{fileobj!r} (FD {fd}) is already registered")
         k = SelKey(fileobj, events)
+        k.fd = fd
+        k.data = data
         self.keys.append(k)
         return k
 
     def unregister(self, fileobj):
+        # (a closed file object is looked up by identity, as selectors._fileobj_lookup does)
+        hit = [k for k in self.keys if k.fileobj is fileobj]
+        if not hit:
+            raise KeyError(f"{fileobj!r} is not registered")
         self.keys = [k for k in self.keys if k.fileobj is not fileobj]
+        return hit[0]
 
     def _ready(self):
         out = []
@@ -494,6 +506,9 @@ class SimSocket:
         self.index = len(net.sockets)
         self.closed_at = None
         self.write_fault = None
+        # descriptor numbers are handed out like the kernel does: the lowest number not in use (so they are reused)
+        used = {x.fd for x in net.sockets if not x.closed}
+        self.fd = next(n for n in range(1000, 1000 + len(net.sockets) + 2) if n not in used)
         net.sockets.append(self)
 
     # kernel readability (what select()/epoll sees)
@@ -522,7 +537,7 @@ class SimSocket:
         self.opts.append(a)
 
     def fileno(self):
-        return -1 if self.closed else 1000 + self.index
+        return -1 if self.closed else self.fd
 
     def pending(self):
         return len(self.plain)
